@@ -28,7 +28,7 @@ META = {
                    'enters the plant cost exactly once (unit sensitivity by term substitution).',
     'bounds': {t: {'kinds': KINDS_T[t], 'L': 1, 'K': 1, 'time steps per year': 2, 'flags': 'thorough: 9 symbolic Booleans x 8 enumerated combinations of the other 3; quick: 5 symbolic x 5 patterns of the other 7', 'well cost correlation': 'default + SIMPLE (thorough: all 17 via the concrete well-cost term)'} for t in KINDS_T},
     'outside': ['numeric content of the plant / well cost correlations (they enter as the concrete or uninterpreted terms the code computes)',
-                'AGS / SUTRA / SBT economics', 'lifetimes other than 1 (the roll-up does not depend on L except through redrilling/L, which is symbolic in redrill)', 'IEEE rounding'],
+                'AGS economics (its database is not in the repository); the SBT and SUTRA (RTES) economics have their own units', 'lifetimes other than 1 (the roll-up does not depend on L except through redrilling/L, which is symbolic in redrill)', 'IEEE rounding'],
     'assumptions': ['real arithmetic', 'inputs inside declared ranges'],
     'stubs': ['Economics.npf/np/math shims (as C04)'],
 }
@@ -240,10 +240,15 @@ def units(tier, seed):
         if tier == 'quick':
             fl.update({'ccstimfixed.Valid': False, 'oamplantfixed.Valid': False})
         us.append(sbt_cfg(fl))
+    us.append({'harness': 'sutra'})      # reservoir thermal energy storage family: SUTRAEconomics.Calculate
     return us
 
 
 def run_unit(unit):
+    if unit.get('harness') == 'sutra':
+        from . import c03sutra
+        yield from c03sutra.run_unit(unit)
+        return
     cfg = {k: v for k, v in unit.items() if k != 'tier'}
     spec = spec_of(cfg)
     log = harness.UnitLog({k: v for k, v in cfg.items() if k != 'extra'})
@@ -279,4 +284,7 @@ def run_unit(unit):
 
 
 def replay(cex):
+    if cex['config'].get('family') == 'sutra':
+        from . import c03sutra
+        return c03sutra.concrete(cex['inputs'], only=cex.get('obligation'))
     return concrete(cex['config'], cex['inputs'], only=cex.get('obligation'))
